@@ -202,10 +202,26 @@ Proof.
 Qed.
 Print Assumptions C08_rejected_entity_stays_ahead.
 
-Theorem C08_handlers_inert : forall v st full union b los flt hs hs',
-  run_job v st (mkR full union b los flt hs) = run_job v st (mkR full union b los flt hs').
+Theorem C08_handlers_inert : forall v st full union b los flt hs hs' sh,
+  run_job v st (mkR full union b los flt hs sh) = run_job v st (mkR full union b los flt hs' sh).
 Proof. reflexivity. Qed.
 Print Assumptions C08_handlers_inert.
+
+(** Fullsync to an HttpDatasetSink ("entities mode": the source is paged through its latest
+    entities, the receiving hub gets full-sync-start / full-sync-end, the job's token is not
+    stored): a run that reaches the end without a refused entity leaves the receiver with the
+    source's latest version of every source entity and every other entity deleted, from ANY
+    previous content - for a single source or a union of members with disjoint ids. *)
+Theorem C08_entities_fullsync_converges : forall owner fs dm st r st' o,
+  owned owner (st_srcs st) -> rejected r = None ->
+  run_entities (mkVar EqFull fs dm) st r = (st', o) ->
+  o = OOk /\ st_srcs st' = st_srcs st
+  /\ st_tok st' = match fs with FsKeep => st_tok st | FsReset => none_tokens (st_srcs st) end
+  /\ (forall k i, k < length (st_srcs st) -> In i (ids (nth k (st_srcs st) [])) ->
+        cur (st_sink st') i = cur (nth k (st_srcs st) []) i)
+  /\ foreign_deleted st'.
+Proof. intros owner fs dm st r st' o. exact (run_entities_converges owner (mkVar EqFull fs dm) st r st' o eq_refl). Qed.
+Print Assumptions C08_entities_fullsync_converges.
 
 (** tie to the correspondence check: on a well-formed case, agreement of the implementation
     with the repaired model implies the WHOLE executable spec (token safety after every run,
@@ -221,11 +237,11 @@ Definition h_demo : list op :=
   [ OWrite 0 [mkV 1 1 0 false; mkV 2 2 0 false; mkV 1 3 0 false];
     OWrite 1 [mkV 11 1 0 false; mkV 12 1 0 true];
     OSinkWrite [mkV 100 1 1 false];
-    ORun (mkR false true 2 [false; true] (FDieBefore 1) []);
-    ORun (mkR false true 2 [false; true] (FSinkFail 0) []);
-    ORun (mkR true true 1 [false; true] (FKill 2) []);
-    ORun (mkR false true 2 [false; true] FNone []);
-    ORun (mkR true true 2 [false; true] FNone []) ].
+    ORun (mkR false true 2 [false; true] (FDieBefore 1) [] false);
+    ORun (mkR false true 2 [false; true] (FSinkFail 0) [] false);
+    ORun (mkR true true 1 [false; true] (FKill 2) [] false);
+    ORun (mkR false true 2 [false; true] FNone [] false);
+    ORun (mkR true true 2 [false; true] FNone [] false) ].
 Definition own_demo (i : Z) : nat := if (i <? 10)%Z then 0 else if (i <? 100)%Z then 1 else 2.
 
 Example C08_nonvacuous_1 :
@@ -248,11 +264,11 @@ Proof. vm_compute. auto. Qed.
 
 (** the hypotheses of C08_agree_implies_spec are met by a concrete case *)
 Definition c_demo : tcase :=
-  mkTC 1 false [false] 1 [HReQueue; HReRun]
+  mkTC 1 false [false] 1 [HReQueue; HReRun] false
     [ TW 0 [mkV 1 1 0 false; mkV 1 2 0 false];
-      TRun (mkTR false (FDieBefore 0) 2%N [(-1)%Z] [mkV 1 1 0 false] 1 [2%Z]);
-      TRun (mkTR false FNone 0%N [2%Z] [mkV 1 2 0 false] 2 [2%Z]);
-      TRun (mkTR false (FDieAfter 0) 2%N [2%Z] [mkV 1 2 0 false] 2 [2%Z]) ]
+      TRun (mkTR false (FDieBefore 0) 2%N [(-1)%Z] [mkV 1 1 0 false] 1 [2%Z] [mkV 1 1 0 false]);
+      TRun (mkTR false FNone 0%N [2%Z] [mkV 1 2 0 false] 2 [2%Z] [mkV 1 2 0 false]);
+      TRun (mkTR false (FDieAfter 0) 2%N [2%Z] [mkV 1 2 0 false] 2 [2%Z] []) ]
     [[mkV 1 1 0 false; mkV 1 2 0 false]].
 Example C08_nonvacuous_3 : wf_case c_demo /\ agree v_fixed c_demo = true /\ spec_ok c_demo = true.
 Proof.
